@@ -15,6 +15,7 @@ ASSUMPTIONS = [
     "inputs are chosen among cells that have a dependant leading to a chosen output (trim_graph raises "
     "ValueError for the others by design); values written to the inputs come from the clean pool",
     "the save/load leg goes through yml, json or pkl files in the check's work directory",
+    "unbounded row/column ranges are outside coq/Model/Trim.v: that stream is judged by the oracle alone",
 ]
 
 
@@ -61,7 +62,13 @@ def run(ctx):
         "range) and input set (1-3 cells among the outputs' ancestors: leaf inputs and buried formula cells) — "
         "exhaustive over single inputs/outputs for small workbooks, sampled beyond — x 3 rounds of re-assignment "
         "of every input from the value pool; compared: untrimmed, trimmed, trimmed+saved+loaded (yml/json/pkl), "
-        "trimmed before vs after the first evaluate; distinct = distinct (workbook, inputs, outputs)")
+        "trimmed before vs after the first evaluate; distinct = distinct (workbook, inputs, outputs). "
+        "Unbounded-range stream (oracle only): sheets with columns A, B (constants; B also formulas over A / the B "
+        "cell above) and outputs in column D reading whole columns or rows (=SUM(B:B)+A1, A:B, 2:3, chained "
+        "outputs), inputs among the constants the outputs read, so that the unbounded range is independent of the "
+        "inputs or contains one; untrimmed vs trimmed vs trimmed+saved+loaded through yml, json AND pkl, 3 "
+        "assignment rounds; the untrimmed model is also compared with a fresh compile of the workbook holding the "
+        "values written so far")
     nwb = ctx.n(200, 2000)
     model_batch = []
     refused_batch = []
